@@ -137,6 +137,24 @@ def replay_leg(ctx, q):
         ctx.candidate(key, "framing %s: observed %s, spec requires %s (script_ok=%s %s) scenario=%s" % (
             r.get("variant"), json.dumps(r.get("obs")), json.dumps(r.get("exp")), r.get("script_ok"), r.get("note", ""),
             json.dumps(r.get("scn"))[:400]), r)
+    # size sweep: the simplest behaviour (complete two-message stream, clean end) for every first-message size in a
+    # dense range and around the powers of two - TLC enumerates chunkings, this instantiates sizes
+    if not ctx.replay:
+        swp = os.path.join(ctx.build, "c09.sweep.ndjson")
+        ctx.run_harness(binp, "TestVerifC09Sweep", env=dict(VERIF_OUT=swp, VERIF_DENSE=9000 if q else 70000), timeout=3000)
+        sw = vf.read_ndjson(swp)
+        ssum = [r for r in sw if r.get("summary")]
+        if not ssum:
+            raise vf.Machinery("sweep harness wrote no summary")
+        for r in sw:
+            if r.get("summary"):
+                continue
+            ctx.candidate(dict(variant=r.get("variant"), sweep=True, lens=r["scn"]["lens"]),
+                          "framing %s, message sizes %s (complete stream): observed %s, spec requires %s" % (
+                              r.get("variant"), r["scn"]["lens"], json.dumps(r.get("obs"))[:300], json.dumps(r.get("exp"))[:300]), r)
+        ctx.cov["evaluations"] += ssum[0]["evaluations"]
+        ctx.cov["traces_validated_against_impl"] += ssum[0]["scenarios"]
+        ctx.notes["size_sweep"] = ssum[0]
     ctx.cov["evaluations"] += summ["evaluations"]
     ctx.cov["traces_validated_against_impl"] += summ["scenarios"] - summ["stall_skipped"]
     ctx.cov["distinct_nontrivial"] += summ["nontrivial"]
